@@ -9,11 +9,14 @@ THEOREMS = (["PQ.C17.unpack_pack%d" % w for w in (1, 2, 3, 4)] +
             ["PQ.C17.pack_spec%d" % w for w in (1, 2, 3, 4)] +
             ["PQ.C17.fresh_pack%d" % w for w in (1, 2, 3, 4)] +
             ["PQ.C17.fresh_unpack%d" % w for w in (1, 2, 3, 4)] +
-            ["PQ.C17.fresh_dispatch", "PQ.C17.dispatch_ok", "PQ.C17.maxSize_ok"])
+            ["PQ.C17.fresh_dispatch", "PQ.C17.dispatch_ok", "PQ.C17.maxSize_ok"] +
+            ["PQ." + t for t in ("pack_length", "pack_lt", "unpack_pack", "pack_unpack", "unpack_length", "unpack_lt",
+                                 "pack_eq_packSpec", "unpack_eq_unpackSpec", "unpackSpec_packSpec")])
+EXTRA = ["PQ.Lemmas.BitpackNat"]
 
 
 def hexs(vals):
-    return "".join("%02x" % v for v in vals)
+    return "".join("%02x" % v for v in vals) or "-"
 
 
 def gen_groups(chk, w, thorough):
@@ -65,7 +68,7 @@ def run(chk):
     with Lock():
         cov["steps"] = rebuild_tools(chk.log)
         build_pqh(chk.log)
-        pr = proof_stage(chk, MODULE, THEOREMS)
+        pr = proof_stage(chk, MODULE, THEOREMS, EXTRA, audit_imports=EXTRA)
     pair = Pair(chk.log)
 
     # ---- correspondence (exact) + the property evaluated on the implementation (search oracle)
